@@ -470,7 +470,7 @@ class Core:
     def qvar(self, hint="k", sort=None):
         return z3.Const("%s!q%d" % (hint, next(self.counter)), sort if sort is not None else z3.IntSort())
 
-    def forall_idx(self, length, body_fn, lo=0):
+    def forall_idx(self, length, body_fn, lo=0, pats=None):
         """forall k in [lo, length): body_fn(k).  Expanded in UNROLL mode."""
         if self.mode == "UNROLL":
             parts = []
@@ -485,7 +485,13 @@ class Core:
                 parts.append(z3.Implies(rng, b))
             return z3.And(*parts) if parts else z3.BoolVal(True)
         k = self.qvar()
-        return z3.ForAll([k], z3.Implies(z3.And(k >= lo, k < length), zbool(body_fn(k))))
+        body = z3.Implies(z3.And(k >= lo, k < length), zbool(body_fn(k)))
+        if pats is not None:
+            try:
+                return z3.ForAll([k], body, patterns=[p(k) for p in pats])     # alternative single-term triggers
+            except z3.Z3Exception:
+                pass
+        return z3.ForAll([k], body)
 
     def exists_idx(self, length, body_fn, lo=0):
         if self.mode == "UNROLL":
@@ -508,9 +514,13 @@ class Core:
             return self.list_len(b) == 0
         if b.ty.kind == "EmptyList":
             return self.list_len(a) == 0
+        pats = None
+        if a.ty.elem.kind in ("Ref", "Int", "Real", "Str", "Bool", "Enum") and a.ty.elem == b.ty.elem:
+            # an element of EITHER list triggers the equation (a membership witness in one list is carried to the other)
+            pats = [lambda k: self.list_get(a, k), lambda k: self.list_get(b, k)]
         return z3.And(self.list_len(a) == self.list_len(b),
                       self.forall_idx(self.list_len(a), lambda k: self.val_eq(
-                          Val(a.ty.elem, self.list_get(a, k)), Val(b.ty.elem, self.list_get(b, k)))))
+                          Val(a.ty.elem, self.list_get(a, k)), Val(b.ty.elem, self.list_get(b, k))), pats=pats))
 
     def val_eq(self, a, b, node=None):
         """python == on values"""
